@@ -1026,6 +1026,7 @@ type MisObs struct {
 }
 
 type RefuseCase struct {
+	Aliased  int64       `json:"aliased"` // calls of functions written into the ServerConfig value after NewServer returned
 	Mode     string      `json:"mode"`
 	Mis      []MisObs    `json:"mis,omitempty"`
 	Obs      []RefuseObs `json:"obs"`
@@ -1405,6 +1406,7 @@ func runRefuse(r *hx.Rng, mode string) *RefuseCase {
 		res.Obs = append(res.Obs, rwA.run("A", sc))
 	}
 	res.Mis = rwA.misRounds(full, hello, 4)
+	res.Aliased += atomic.LoadInt64(&rwA.w.AliasedCalls)
 	rwA.w.Close()
 
 	// ---- world B: a server without lookup ("server not accepting")
@@ -1414,6 +1416,7 @@ func runRefuse(r *hx.Rng, mode string) *RefuseCase {
 		return res
 	}
 	res.Obs = append(res.Obs, rwB.run("B", refuseScenario{"lookup:none-configured", tagged(full, "T-nolookup"), false, "refused", "site0.example", false}))
+	res.Aliased += atomic.LoadInt64(&rwB.w.AliasedCalls)
 	rwB.w.Close()
 
 	// ---- world C: DialHome fails; default forward dialer to a port nothing listens on
@@ -1443,6 +1446,7 @@ func runRefuse(r *hx.Rng, mode string) *RefuseCase {
 	} {
 		res.Obs = append(res.Obs, rwC.run("C", sc))
 	}
+	res.Aliased += atomic.LoadInt64(&rwC.w.AliasedCalls)
 	rwC.w.Close()
 
 	// ---- world D: the configured Lookup changes its answers between connections, an endpoint
@@ -1502,6 +1506,7 @@ func runRefuse(r *hx.Rng, mode string) *RefuseCase {
 		conn("change:endpoint-re-registered", "/ep1#2")
 	}
 	res.Obs = append(res.Obs, rwD.run("D", refuseScenario{"change:other-name-unaffected", tagged(hello(other), "T-other"), false, "/ep1#2", other, false}))
+	res.Aliased += atomic.LoadInt64(&rwD.w.AliasedCalls)
 	rwD.w.Close()
 	return res
 }
